@@ -84,7 +84,18 @@ def processLine (acc : DAcc) (line : String) : IO DAcc := do
   match Json.parse line with
   | .error e => IO.println s!"PARSE-ERROR {e}"; return acc
   | .ok j =>
-    if let .ok g := j.getObjVal? "genesis" then
+    if let .ok rej := j.getObjVal? "genesisRejected" then
+      -- a genesis the application refused: the model of the parameter validation must refuse it too
+      let hist := (j.getObjValAs? Nat "hist").toOption.getD 0
+      let ps : Except String NodeParams := getF j "params"
+      match ps with
+      | .ok p =>
+        if paramsValidate p then
+          IO.println s!"MISMATCH hist={hist} i=genesis op=genesisparams field=params impl=refused:{rej.compress.take 80} model=accepted"
+        IO.println s!"STEP hist={hist} i=genesis op=genesisparams res=err kind=refused"
+        return { acc with mismatches := acc.mismatches + (if paramsValidate p then 1 else 0) }
+      | .error e => IO.println s!"DECODE-ERROR genesisRejected params: {e}"; return acc
+    else if let .ok g := j.getObjVal? "genesis" then
       let env : Except String Env := getF g "env"
       let st : Except String State := getF g "state"
       let gl : Dec := ((g.getObjVal? "state").toOption.bind (fun x => (x.getObjValAs? Int "global").toOption)).getD 0
@@ -94,6 +105,9 @@ def processLine (acc : DAcc) (line : String) : IO DAcc := do
         let hist := (j.getObjValAs? Nat "hist").toOption.getD 0
         for (c, msg) in Monitors.checkState env st.st do
           IO.println s!"MONITOR hist={hist} i=genesis prop={c} {msg}"
+        -- a genesis the application accepted: the model of the parameter validation accepts its parameters
+        if let some why := paramsRefusal st.st.params then
+          IO.println s!"MISMATCH hist={hist} i=genesis op=genesisparams field=params impl=accepted model=refused:{why}"
         return { acc with env := env, prev := some st, hist := hist, origin := "failed-tx" }
       | .error e, _ => IO.println s!"DECODE-ERROR genesis env: {e}"; return acc
       | _, .error e => IO.println s!"DECODE-ERROR genesis state: {e}"; return acc
